@@ -158,7 +158,7 @@ def gen(item, rng, tier):
                     break
             else:
                 nme, w = 'mov_imm8', T.mov_imm(rd, 0x9C)
-            slots.append({'t': 'dp16', 'w': w, 'rd': rd, 'name': nme, 'nonvacuous': bool(flags_static) and rd not in written and rm not in written})
+            slots.append({'t': 'dp16', 'w': w, 'rd': rd, 'rm': rm, 'name': nme, 'nonvacuous': bool(flags_static) and rd not in written and rm not in written})
         elif t == 'movw':
             imm = 0x40 + i
             slots.append({'t': 'mov', 'w': T.mov_w(rd, imm), 'rd': rd, 'imm': imm})
@@ -175,11 +175,26 @@ def gen(item, rng, tier):
             slots.append({'t': 'ldr', 'w': T.ldst_imm('ldr', rd, 6, off), 'rd': rd, 'addr': P.DBASE + 4 * off})
         elif t == 'b':
             slots.append({'t': 'b', 'w': T.b(4)})          # skips the 16-bit marker that follows the block
-    words = [T.it(f, mask)] + [s['w'] for s in slots]
+    # optional prologue / epilogue: the very same MOVS halfwords that sit in the block are also executed outside it, where they
+    # must set N/Z (and inside they must not) — decode-time context must not leak from one execution to the next
+    movs = [s2['w'] for s2 in slots if s2['t'] == 'mov' and s2['w'] <= 0xFFFF and (s2['w'] & 0xFF)]
+    prologue, epilogue = [], []
+    if movs and rng.random() < 0.5:
+        if rng.random() < 0.5:
+            prologue = list(movs) + [T.msr(8, 8, 0)]          # MSR APSR_nzcvq, r8 puts the cell's flags back
+        else:
+            epilogue = [T.dp(10, 6, 6), rng.choice(movs)]     # CMP r6,r6 (Z=1) ; MOVS rd,#imm must clear Z again
+    if prologue:
+        touched = set((w >> 8) & 7 for w in movs)
+        for s2 in slots:
+            if s2['t'] == 'dp16' and (s2['rd'] in touched or s2.get('rm') in touched):
+                s2['nonvacuous'] = False
+    words = prologue + [T.it(f, mask)] + [s['w'] for s in slots]
     if slots[-1]['t'] == 'b':
         words.append(T.mov_imm(5, 0xB5))                     # skipped iff the branch executed
-    words += [T.mov_imm(4, 0x77), T.SELF]
+    words += epilogue + [T.mov_imm(4, 0x77), T.SELF]
     code = emit(words, True)
+    pro_len = len(emit(prologue, True))
     rets = {k: rng.choice((P.RETURNS_THUMB if te else P.RETURNS_ARM)[k]) for k in ('irq', 'fiq', 'svc', 'und', 'dabt')}
     rets['und'] = 'patch_retry'
     low, hinfo = P.build_low(te, rets)
@@ -199,10 +214,11 @@ def gen(item, rng, tier):
     st['cpsr'] = (st['cpsr'] & 0x0FFFFFFF) | nzcv << 28
     for i, v in enumerate(regs0):
         st['R']['R%dusr' % i] = v
+    st['R']['R8usr'] = nzcv << 28
     core = {'config': cfg, 'devices': devices, 'regs': st, 'done_pc': G.CODE + len(code) - 2}
     # slot addresses
     addrs = []
-    a = G.CODE + 2
+    a = G.CODE + pro_len + 2
     for s in slots:
         addrs.append(a)
         a += size_of(s['w'], True)
@@ -210,14 +226,15 @@ def gen(item, rng, tier):
     pos = None
     if kind in ('irq', 'fiq'):
         pos = item.get('pos', rng.randrange(0, n + 2))
-        events.append({'tick': pos, 'core': 0, 'kind': kind})
+        events.append({'tick': len(prologue) + pos, 'core': 0, 'kind': kind})
         if rng.random() < 0.25:
-            events.append({'tick': pos + rng.randrange(1, 6), 'core': 0, 'kind': 'fiq' if kind == 'irq' else 'irq'})
+            events.append({'tick': len(prologue) + pos + rng.randrange(1, 6), 'core': 0, 'kind': 'fiq' if kind == 'irq' else 'irq'})
     elif special is not None:
         pos = special + 1
     hl = sum(v[2] for v in hinfo.values())
     meta = {'thumb': 1, 'te': te, 'mode': mode, 'returns': rets, 'main_lo': G.CODE, 'main_hi': G.CODE + len(code), 'handlers': {k: list(v) for k, v in hinfo.items()},
-            'firstcond': f, 'mask': mask, 'nzcv': nzcv, 'kind': kind, 'pos': pos, 'slots': slots, 'slot_addrs': addrs, 'special': special}
+            'firstcond': f, 'mask': mask, 'nzcv': nzcv, 'kind': kind, 'pos': pos, 'slots': slots, 'slot_addrs': addrs, 'special': special,
+            'it_addr': G.CODE + pro_len, 'epi_addr': (a + (2 if slots[-1]['t'] == 'b' else 0) + 2) if epilogue else None, 'pro_len': pro_len}
     return {'scenario': 'it_block', 'cores': [core], 'meta': meta, 'events': events, 'max_ticks': len(words) + 3 * (hl + 10) + 40}
 
 
@@ -257,7 +274,7 @@ class ITObserver:
         pc = rec['pre_pc']
         entered = [k for t, k in self.mon.taken if t == rec['tick']]
         cellsite = 'fc%x.m%x' % (meta['firstcond'], meta['mask'])
-        if pc == meta['main_lo']:
+        if pc == meta['it_addr']:
             want = IT.it_after_IT(meta['firstcond'], meta['mask'])
             if pre_it != 0 or (post_it != want and not entered):
                 b.violate('it.state', 'ItT1', 'itstate_after_it', 'IT %x,%x: ITSTATE %#x -> %#x, model 0 -> %#x' % (meta['firstcond'], meta['mask'], pre_it, post_it, want))
@@ -328,6 +345,8 @@ class ITObserver:
                     b.violate('it.effect', 'cmp', 'cmp_flags', 'CMP in slot %d gave NZCV %x, expected %x' % (i, post_cpsr >> 28, want))
             if t == 'b' and postR['PC'] != pc + 4:
                 b.violate('it.effect', 'b', 'passed_condition_no_effect', 'branch in the last slot not taken')
+        elif pc == meta.get('epi_addr') and not entered and (post_cpsr >> 30) & 1:
+            b.violate('it.flags', 'mov_imm8', 'flags_not_set_outside_it_block', 'MOVS #imm (word %#x) executed after the block left Z set: the same halfword was executed inside the block before' % arm.opcode)
         elif pre_it != 0 and not entered:
             b.violate('it.state', 'after_block', 'itstate_not_retired', 'instruction at %#x after the block runs with ITSTATE %#x' % (pc, pre_it))
         # view for the transparency comparison (ticks that completed in the main mode, special slot excluded)
